@@ -206,4 +206,131 @@ THEOREM GrossUpperBound ==
 <1>10. (x + a) * (D * g) < y * a * D + (x + a)
   BY <1>8, <1>9, <1>6
 <1> QED BY <1>10, <1>7
+
+(* if b*t <= n then t <= n \div b *)
+LEMMA DivLower ==
+    ASSUME NEW n \in Nat, NEW b \in Nat, b > 0, NEW t \in Nat, b * t <= n
+    PROVE  t <= n \div b
+<1>1. n < b * ((n \div b) + 1) /\ n \div b \in Nat
+  BY DivBounds
+<1>2. SUFFICES ASSUME t >= (n \div b) + 1 PROVE FALSE
+  BY <1>1
+<1>3. b * t >= b * ((n \div b) + 1)
+  BY <1>1, <1>2
+<1>4. b * t <= n
+  OBVIOUS
+<1> QED BY <1>1, <1>3, <1>4
+
+(* if n < b*(t+1) then n \div b <= t *)
+LEMMA DivUpper ==
+    ASSUME NEW n \in Nat, NEW b \in Nat, b > 0, NEW t \in Nat, n < b * (t + 1)
+    PROVE  n \div b <= t
+<1>1. b * (n \div b) <= n /\ n \div b \in Nat
+  BY DivBounds
+<1>2. CASE n \div b <= t
+  BY <1>2
+<1>3. CASE n \div b >= t + 1
+  <2>1. b * (n \div b) >= b * (t + 1)
+    BY <1>1, <1>3
+  <2>2. b * (t + 1) <= n
+    BY <1>1, <2>1
+  <2> QED BY <2>2
+<1> QED BY <1>1, <1>2, <1>3
+
+(***************************************************************************)
+(* KF-1 is exact: write x*y = Q*(x+a) + m with 0 <= m < x+a.  Outside the  *)
+(* window (m = 0, or m*D >= x+a) compute_swap's gross output never exceeds *)
+(* y*a/(x+a); so every C01 violation of the formula lies inside the window *)
+(* 0 < m*D < x+a.                                                          *)
+(***************************************************************************)
+THEOREM GrossExactOutsideWindow ==
+    ASSUME NEW x \in Nat, NEW y \in Nat, NEW a \in Nat, NEW D \in Nat, D > 0, x + a > 0,
+           NEW Q \in Nat, NEW m \in Nat, x * y = Q * (x + a) + m, m < x + a,
+           m = 0 \/ m * D >= x + a,
+           NEW K \in Nat, K = (x * y * D) \div (x + a), K <= y * D,
+           NEW g \in Nat, g = (y * D - K) \div D
+    PROVE  g * (x + a) <= y * a
+<1>a. x * y * D \in Nat /\ x + a \in Nat /\ y * D - K \in Nat
+  OBVIOUS
+<1>b. x * y * D = (Q * D) * (x + a) + m * D
+  <2>1. x * y * D = (Q * (x + a) + m) * D
+    OBVIOUS
+  <2>2. (Q * (x + a) + m) * D = (Q * D) * (x + a) + m * D
+    OBVIOUS
+  <2> QED BY <2>1, <2>2
+<1>c. y >= Q
+  <2>1. Q * (x + a) <= x * y
+    OBVIOUS
+  <2>2. x * y <= y * (x + a)
+    OBVIOUS
+  <2>3. CASE Q <= y
+    BY <2>3
+  <2>4. CASE Q >= y + 1
+    <3>1. Q * (x + a) >= (y + 1) * (x + a)
+      <4>1. Q \in Nat /\ y + 1 \in Nat /\ x + a \in Nat /\ Q >= y + 1 /\ x + a >= x + a
+        BY <2>4
+      <4> QED BY <4>1, MulMono
+    <3>2. (y + 1) * (x + a) = y * (x + a) + (x + a)
+      OBVIOUS
+    <3>3. y * (x + a) + (x + a) <= y * (x + a)
+      BY <2>1, <2>2, <3>1, <3>2
+    <3> QED BY <3>3
+  <2> QED BY <2>3, <2>4
+<1>d. (y - Q) * (x + a) = y * a + m
+  <2>1. (y - Q) * (x + a) = y * (x + a) - Q * (x + a)
+    OBVIOUS
+  <2>2. y * (x + a) = x * y + y * a
+    OBVIOUS
+  <2> QED BY <2>1, <2>2
+<1>1. CASE m = 0
+  <2>1. K >= Q * D
+    <3>1. (x + a) * (Q * D) <= x * y * D
+      BY <1>b, <1>1
+    <3>2. Q * D \in Nat
+      OBVIOUS
+    <3> QED BY <1>a, <3>1, <3>2, DivLower
+  <2>2. y * D - K <= (y - Q) * D
+    <3>1. (y - Q) * D = y * D - Q * D
+      OBVIOUS
+    <3> QED BY <2>1, <3>1
+  <2>3. g <= y - Q
+    <3>1. y * D - K < D * ((y - Q) + 1)
+      <4>1. D * ((y - Q) + 1) = (y - Q) * D + D
+        OBVIOUS
+      <4> QED BY <2>2, <4>1
+    <3>2. y - Q \in Nat
+      BY <1>c
+    <3> QED BY <1>a, <3>1, <3>2, DivUpper
+  <2>4. g * (x + a) <= (y - Q) * (x + a)
+    BY <2>3, <1>c
+  <2> QED BY <2>4, <1>d, <1>1
+<1>2. CASE m * D >= x + a
+  <2>1. K >= Q * D + 1
+    <3>1. (x + a) * (Q * D + 1) = (Q * D) * (x + a) + (x + a)
+      OBVIOUS
+    <3>2. (x + a) * (Q * D + 1) <= x * y * D
+      BY <1>b, <1>2, <3>1
+    <3>3. Q * D + 1 \in Nat
+      OBVIOUS
+    <3> QED BY <1>a, <3>2, <3>3, DivLower
+  <2>2. y - Q >= 1
+    <3>1. SUFFICES ASSUME y = Q PROVE FALSE
+      BY <1>c
+    <3>2. K >= y * D + 1
+      BY <2>1, <3>1
+    <3> QED BY <3>2
+  <2>3. y * D - K < D * (((y - Q) - 1) + 1)
+    <3>1. D * (((y - Q) - 1) + 1) = y * D - Q * D
+      OBVIOUS
+    <3> QED BY <2>1, <3>1
+  <2>4. g <= (y - Q) - 1
+    <3>1. (y - Q) - 1 \in Nat
+      BY <2>2, <1>c
+    <3> QED BY <1>a, <2>3, <3>1, DivUpper
+  <2>5. g * (x + a) <= ((y - Q) - 1) * (x + a)
+    BY <2>4, <2>2, <1>c
+  <2>6. ((y - Q) - 1) * (x + a) = (y - Q) * (x + a) - (x + a)
+    OBVIOUS
+  <2> QED BY <2>5, <2>6, <1>d
+<1> QED BY <1>1, <1>2
 =============================================================================
